@@ -20,6 +20,7 @@ package static
 import (
 	"bytes"
 	"encoding/json"
+	"errors"
 	"fmt"
 	"io/ioutil"
 	"math"
@@ -32,6 +33,7 @@ import (
 	"path/filepath"
 	"strconv"
 	"strings"
+	"syscall"
 
 	"github.com/google/martian/v3"
 	"github.com/google/martian/v3/parse"
@@ -88,7 +90,8 @@ func (s *Modifier) ModifyResponse(res *http.Response) error {
 
 	f, err := os.Open(fpth)
 	switch {
-	case os.IsNotExist(err):
+	case os.IsNotExist(err), errors.Is(err, syscall.ENOTDIR):
+		// ENOTDIR: a parent of the requested path is a regular file.
 		res.StatusCode = http.StatusNotFound
 		return nil
 	case os.IsPermission(err):
@@ -108,6 +111,12 @@ func (s *Modifier) ModifyResponse(res *http.Response) error {
 	if err != nil {
 		res.StatusCode = http.StatusInternalServerError
 		return err
+	}
+	if info.IsDir() {
+		// Only files are served; a directory has no content to return.
+		f.Close()
+		res.StatusCode = http.StatusNotFound
+		return nil
 	}
 
 	contentType := mime.TypeByExtension(filepath.Ext(fpth))
